@@ -672,7 +672,34 @@ fn c08(ctx: &mut Ctx) {
 // C11: prover and verifier absorb the same byte strings and squeeze the same challenges
 // ------------------------------------------------------------------------------------------------
 
+/// the model's event log of one operation against the recorded one (`hyrax.transcript`)
+fn ask_transcript(ctx: &mut Ctx, id: &str, req: Req, log: &LogSponge, dict: &Dict, mut extra: Vec<(String, Expect)>, refuse: Option<String>) {
+    let req = req.arg("sq", squeezed(log));
+    let out = match refuse {
+        Some(k) => ImplOutcome::Refuse(k),
+        None => {
+            extra.push(("log".into(), Expect::Raw(decode_log(&log.log, dict))));
+            ImplOutcome::Ok(extra)
+        }
+    };
+    ctx.ses.ask(id, req, out);
+}
+
+fn lockstep_expect(ctx: &mut Ctx, id: &str, c: &Case, what: &str, p: &LogSponge, v: &LogSponge, accepted: bool, detail: &str) {
+    if !accepted {
+        ctx.rep.expect_fail(id, &format!("hyrax/history-rejected/{}", what), &format!("honest {} proof not accepted on the prover's transcript: {}", what, detail),
+            c.replay(id, ctx.seed, &format!("{}: honest proof rejected", what)));
+    } else if p.log != v.log || p.probe() != v.probe() {
+        ctx.rep.expect_fail(id, &format!("hyrax/transcript-not-lockstep/{}", what),
+            &format!("prover events [{}] differ from verifier events [{}] (or the next squeeze differs)", p.shape(), v.shape()),
+            c.replay(id, ctx.seed, &format!("{}: prover and verifier sponge logs differ", what)));
+    }
+}
+
 fn c11(ctx: &mut Ctx) {
+    use ark_crypto_primitives::sponge::CryptographicSponge;
+    use ark_poly_commit::{Evaluations, PolynomialCommitment, QuerySet};
+    use ark_std::rand::RngCore;
     let n = ctx.n(9, 90);
     for i in 0..n {
         let id = format!("C11/hyrax-model/{}", i);
@@ -683,20 +710,77 @@ fn c11(ctx: &mut Ctx) {
         let nv = nv_for(ctx, &mut rng, i);
         let k = 1 + (i / 3) % 3;
         let kinds = kinds_for(&mut rng, i, k);
-        let (c, o) = match base(ctx, &mut rng, &id, nv, &kinds) {
-            Some(x) => x,
-            None => continue,
+        let c = match gen_case_with(&mut rng, nv, &kinds) {
+            Ok(c) => c,
+            Err(e) => {
+                ctx.rep.expect_fail(&id, &format!("hyrax/honest-commit-failed/{}", e.split(':').next().unwrap_or("")),
+                    &format!("in-domain commit refused or not key-defined: {}", e),
+                    format!("# scheme: hyrax\n# case: {}\n# seed: {}\n# nv={} kinds={:?}\n# {}\n", id, ctx.seed, nv, kinds, e));
+                continue;
+            }
         };
-        let st = honest_stmt(&c, &o);
-        let ch = run_check(ctx, &id, &st);
-        if o.sponge.log != ch.sponge.log || o.sponge.probe() != ch.sponge.probe() {
-            ctx.rep.expect_fail(
-                &id,
-                "hyrax/transcript-not-lockstep",
-                &format!("prover events [{}] differ from verifier events [{}]", o.sponge.shape(), ch.sponge.shape()),
-                c.replay(&id, ctx.seed, "prover and verifier sponge logs differ"),
-            );
+        let (point, _) = rand_point(&mut rng, nv);
+        // a sponge pre-seeded with arbitrary absorbed data (every second case); the log starts here
+        let mut pre = LogSponge::fresh();
+        if i % 2 == 1 {
+            pre.absorb(&Fr::rand(&mut rng));
         }
+        pre.log.clear();
+        let mut dict = Dict::new();
+        dict.add(&c.trap.ks);
+        dict.add(&[c.trap.h]);
+        for s in &c.com_s {
+            dict.add(s);
+        }
+        let labels = c.labels();
+        let nvs = vec![nv; k];
+
+        // ---- operation 1: `open` of all k polynomials at one point, `check` of the proofs
+        let o = match open_lib_on(&c.trap, &c.polys, &c.coms, &c.states, &point, &mut rng, pre.clone()) {
+            Ok(o) => o,
+            Err(e) => {
+                ctx.rep.expect_fail(&id, &format!("hyrax/honest-open-failed/{}", e.split(':').next().unwrap_or("")),
+                    &format!("in-domain open refused or not key-defined: {}", e), c.replay(&id, ctx.seed, &e));
+                continue;
+            }
+        };
+        for p in &o.proofs_s {
+            dict.add(&[p.ce, p.cd, p.cb]);
+        }
+        let req = state_args(
+            Req::new("hyrax.transcript")
+                .arg("side", wire::nat(0))
+                .arg("ks", wire::fes(&c.trap.ks))
+                .arg("h", wire::fe(&c.trap.h))
+                .arg("plabels", labels_val(&labels))
+                .arg("clabels", labels_val(&labels))
+                .arg("nvs", wire::nats(&nvs)),
+            &c.mirrors,
+        )
+        .arg("coms", wire::fess(&c.com_s))
+        .arg("point", wire::fes(&point))
+        .arg("draws", wire::fes(&o.draws));
+        ask_transcript(ctx, &format!("{}/open", id), req, &o.sponge, &dict,
+            vec![("k".into(), Expect::Nat(k)), ("used".into(), Expect::Nat(o.draws.len())),
+                 ("com_eval".into(), Expect::G1s(o.proofs.iter().map(|p| p.com_eval).collect())),
+                 ("z_d".into(), Expect::Fes(o.proofs.iter().map(|p| p.z_d).collect()))], None);
+        let st = honest_stmt(&c, &o);
+        let ch = run_check_on(ctx, &format!("{}/check", id), &st, pre.clone());
+        let vreq = |st: &Stmt| {
+            proof_args(
+                Req::new("hyrax.transcript")
+                    .arg("side", wire::nat(1))
+                    .arg("ks", wire::fes(&st.ks))
+                    .arg("h", wire::fe(&st.h))
+                    .arg("coms", wire::fess(&st.coms))
+                    .arg("point", wire::fes(&st.point))
+                    .arg("values", wire::fes(&st.values)),
+                &st.proofs,
+            )
+        };
+        ask_transcript(ctx, &format!("{}/check-log", id), vreq(&st), &ch.sponge, &dict,
+            vec![("b".into(), Expect::Bool(ch.dec == Dec::Accept))], if ch.dec == Dec::Refuse { Some(ch.detail.clone()) } else { None });
+        lockstep_expect(ctx, &id, &c, "open", &o.sponge, &ch.sponge, ch.dec == Dec::Accept, &ch.detail);
         // 6 absorbs and one squeeze per polynomial
         let expected: Vec<String> = (0..k).flat_map(|_| vec!["a"; 6].into_iter().map(String::from).chain(std::iter::once("sf1".to_string()))).collect();
         let got: Vec<String> = o.sponge.shape().split(',').map(|s| if s.starts_with('a') { "a".to_string() } else { s.to_string() }).collect();
@@ -704,7 +788,127 @@ fn c11(ctx: &mut Ctx) {
             ctx.rep.expect_fail(&id, "hyrax/transcript-shape", &format!("event shape {}", o.sponge.shape()),
                 c.replay(&id, ctx.seed, "expected 6 absorbs + 1 squeeze per polynomial"));
         }
-        ctx.rep.case(&format!("{} lock-step", c.desc()), Some(format!("hyrax-model/c11/{}/{}", nv, k)));
+
+        // ---- the same proof checked on a sponge with another pre-state (displaced)
+        let mut other = LogSponge::fresh();
+        other.absorb(&Fr::from(1000 + i as u64));
+        other.log.clear();
+        let chd = run_check_on(ctx, &format!("{}/displaced", id), &st, other);
+        ask_transcript(ctx, &format!("{}/displaced-log", id), vreq(&st), &chd.sponge, &dict,
+            vec![("b".into(), Expect::Bool(chd.dec == Dec::Accept))], if chd.dec == Dec::Refuse { Some(chd.detail.clone()) } else { None });
+        if chd.dec == Dec::Accept {
+            ctx.rep.expect_fail(&id, "hyrax/accepted-on-other-transcript/pre-state", "proof accepted against a sponge with different prior absorbs",
+                c.replay(&id, ctx.seed, "displaced proof accepted"));
+        }
+
+        // ---- operation 2 on the SAME sponges: default batch_open / batch_check over two point labels
+        let (z2, _) = rand_point(&mut rng, nv);
+        let mut qs: QuerySet<Vec<Fr>> = QuerySet::new();
+        let mut evs: Evaluations<Vec<Fr>, Fr> = Evaluations::new();
+        let mut qs_val = vec![];
+        let mut ev_val = vec![];
+        // (point label, point, polynomial index) in the order the default iterates: point labels
+        // sorted, polynomial labels sorted inside
+        let mut order: Vec<(String, Vec<Fr>, usize)> = vec![];
+        for (j, lp) in c.polys.iter().enumerate() {
+            let mut add = |pl: &str, z: &Vec<Fr>| {
+                qs.insert((lp.label().clone(), (pl.to_string(), z.clone())));
+                let v = lp.polynomial().evaluate(z);
+                evs.insert((lp.label().clone(), z.clone()), v);
+                qs_val.push(Val::L(vec![wire::label(lp.label()), wire::label(pl), wire::fes(z)]));
+                ev_val.push(Val::L(vec![wire::label(lp.label()), wire::fes(z), wire::fe(&v)]));
+                order.push((pl.to_string(), z.clone(), j));
+            };
+            add("a", &point);
+            if j == 0 || j + 1 == k {
+                add("b", &z2);
+            }
+        }
+        order.sort_by(|x, y| (x.0.clone(), labels[x.2].clone()).cmp(&(y.0.clone(), labels[y.2].clone())));
+        let ck = c.trap.params();
+        let mut sp_p = o.sponge.clone();
+        sp_p.log.clear();
+        let mut sp_v = ch.sponge.clone();
+        sp_v.log.clear();
+        let mut replay = rng.clone();
+        let bproof = match guarded(|| Hx::batch_open(&ck, c.polys.iter(), c.coms.iter(), &qs, &mut sp_p, c.states.iter(), Some(&mut rng as &mut dyn RngCore))) {
+            Ok(Ok(p)) => p,
+            Ok(Err(e)) => {
+                ctx.rep.expect_fail(&id, "hyrax/honest-batch-open-failed", &format!("in-domain batch_open refused: {}", err_kind(&e)), c.replay(&id, ctx.seed, "batch_open"));
+                continue;
+            }
+            Err(a) => {
+                ctx.rep.expect_fail(&id, "hyrax/honest-batch-open-failed", &format!("in-domain batch_open aborted: {}", a), c.replay(&id, ctx.seed, "batch_open"));
+                continue;
+            }
+        };
+        let flat: Vec<_> = bproof.iter().flatten().cloned().collect();
+        let dim = c.dim;
+        let bdraws: Vec<Fr> = (0..flat.len() * (dim + 3)).map(|_| Fr::rand(&mut replay)).collect();
+        let mut flat_s = vec![];
+        let mut bad = replay.clone().next_u64() != rng.clone().next_u64() || flat.len() != order.len();
+        if !bad {
+            for (t, p) in flat.iter().enumerate() {
+                match scalar_proof(&c.trap, &c.mirrors[order[t].2], &order[t].1, &bdraws[t * (dim + 3)..(t + 1) * (dim + 3)], p) {
+                    Ok(ps) => flat_s.push(ps),
+                    Err(_) => {
+                        bad = true;
+                        break;
+                    }
+                }
+            }
+        }
+        if bad {
+            ctx.rep.expect_fail(&id, "hyrax/batch-proofs-not-key-defined", "the proofs of batch_open are not the per-point-label proofs of `open` in map order on the caller's RNG",
+                c.replay(&id, ctx.seed, "batch_open proofs / RNG draws"));
+            continue;
+        }
+        for p in &flat_s {
+            dict.add(&[p.ce, p.cd, p.cb]);
+        }
+        let req = state_args(
+            Req::new("hyrax.transcript")
+                .arg("side", wire::nat(2))
+                .arg("ks", wire::fes(&c.trap.ks))
+                .arg("h", wire::fe(&c.trap.h))
+                .arg("labels", labels_val(&labels))
+                .arg("nvs", wire::nats(&nvs)),
+            &c.mirrors,
+        )
+        .arg("clabels", labels_val(&labels))
+        .arg("coms", wire::fess(&c.com_s))
+        .arg("qs", Val::L(qs_val.clone()))
+        .arg("draws", wire::fes(&bdraws));
+        ask_transcript(ctx, &format!("{}/batch-open", id), req, &sp_p, &dict,
+            vec![("groups".into(), Expect::Nats(bproof.iter().map(|g| g.len()).collect())),
+                 ("used".into(), Expect::Nat(bdraws.len())),
+                 ("com_eval".into(), Expect::G1s(flat.iter().map(|p| p.com_eval).collect())),
+                 ("com_d".into(), Expect::G1s(flat.iter().map(|p| p.com_d).collect())),
+                 ("com_b".into(), Expect::G1s(flat.iter().map(|p| p.com_b).collect())),
+                 ("z_b".into(), Expect::Fes(flat.iter().map(|p| p.z_b).collect()))], None);
+        let mut vrng = rng.clone();
+        let bres = guarded(|| Hx::batch_check(&ck, c.coms.iter(), &qs, &evs, &bproof, &mut sp_v, &mut vrng));
+        let (bacc, brefuse, bdetail) = match &bres {
+            Ok(Ok(b)) => (*b, None, format!("Ok({})", b)),
+            Ok(Err(e)) => (false, Some(err_kind(e)), format!("Err({})", err_kind(e))),
+            Err(a) => (false, Some(a.clone()), a.clone()),
+        };
+        let req = proof_args(
+            Req::new("hyrax.transcript")
+                .arg("side", wire::nat(3))
+                .arg("ks", wire::fes(&c.trap.ks))
+                .arg("h", wire::fe(&c.trap.h))
+                .arg("clabels", labels_val(&labels))
+                .arg("coms", wire::fess(&c.com_s))
+                .arg("qs", Val::L(qs_val))
+                .arg("evals", Val::L(ev_val))
+                .arg("pk", wire::nats(&bproof.iter().map(|g| g.len()).collect::<Vec<_>>())),
+            &flat_s,
+        );
+        ask_transcript(ctx, &format!("{}/batch-check", id), req, &sp_v, &dict, vec![("b".into(), Expect::Bool(bacc))], brefuse);
+        lockstep_expect(ctx, &id, &c, "batch", &sp_p, &sp_v, bacc, &bdetail);
+        ctx.rep.count(&format!("hyrax-model/c11-events-{}", o.sponge.log.len() + sp_p.log.len()));
+        ctx.rep.case(&format!("{} lock-step: open + batch over 2 point labels, event logs vs model", c.desc()), Some(format!("hyrax-model/c11/{}/{}", nv, k)));
     }
     ctx.flush_model("C11-hyrax");
 }
